@@ -772,11 +772,28 @@ func (n *rnode) write(sb *strings.Builder, depth int) {
 		sb.WriteByte('-')
 	}
 	var tg tagger
-	for i, c := range n.buf {
-		if i > 0 {
-			sb.WriteByte(',')
+	// runs of 4 or more equal cells are written as `g.w.st*N` (large surfaces stay short lines)
+	for i := 0; i < len(n.buf); {
+		j := i
+		for j < len(n.buf) && n.buf[j] == n.buf[i] {
+			j++
 		}
-		fmt.Fprintf(sb, "%d.%d.%d", gid(c.Grapheme), c.Width, tg.of(c.Style))
+		c := n.buf[i]
+		tok := fmt.Sprintf("%d.%d.%d", gid(c.Grapheme), c.Width, tg.of(c.Style))
+		if j-i >= 4 {
+			if i > 0 {
+				sb.WriteByte(',')
+			}
+			fmt.Fprintf(sb, "%s*%d", tok, j-i)
+		} else {
+			for k := i; k < j; k++ {
+				if k > 0 {
+					sb.WriteByte(',')
+				}
+				sb.WriteString(tok)
+			}
+		}
+		i = j
 	}
 	for _, k := range n.kids {
 		k.write(sb, depth+1)
@@ -974,6 +991,57 @@ func genRender(r *hx.Run, rng *gen.Rng) error {
 			}
 		}
 	}
+	// surfaces with more than 65535 cells, shown through a negative child origin so that rows at
+	// and past cell index 65536 are visible; every row has its own content (grapheme 'a'+row%26,
+	// style 1+row/26), so painting cell i with the content of cell i-65536 is seen.
+	rowBuf := func(w, h int) []vaxis.Cell {
+		buf := make([]vaxis.Cell, 0, w*h)
+		for row := 0; row < h; row++ {
+			c := vaxis.Cell{Character: vaxis.Character{Grapheme: string(rune('a' + row%26)), Width: 1}, Style: tagStyle(1 + (row/26)%250)}
+			for col := 0; col < w; col++ {
+				buf = append(buf, c)
+			}
+		}
+		return buf
+	}
+	type bigT struct{ w, h int }
+	bigs := []bigT{{257, 256}, {70, 1000}, {300, 300}}
+	if r.Thorough {
+		bigs = append(bigs, bigT{256, 257}, bigT{65535, 2}, bigT{2, 40000}, bigT{1000, 70}, bigT{255, 258})
+	}
+	for _, b := range bigs {
+		first := 65536 / b.w // first row containing a cell of index >= 65536
+		rowsOff := dedupe([]int{0, first - 1, first, first + 1, b.h - 2, b.h - 4, (first + b.h) / 2})
+		colsOff := dedupe([]int{0, b.w - 3, b.w / 2})
+		for _, ro := range rowsOff {
+			for _, co := range colsOff {
+				if ro < 0 || ro >= b.h || co < 0 || co >= b.w {
+					continue
+				}
+				for _, nest := range []bool{false, true} {
+					sw, sh := 6, 4
+					root := &rnode{w: sw, h: sh, buf: fullBuf(0, sw*sh)}
+					big := &rnode{col: -co, row: -ro, z: 0, w: b.w, h: b.h, buf: rowBuf(b.w, b.h)}
+					if nest {
+						// the large surface as a grandchild, under a 4x3 child at (1,1), with a small sibling on top
+						mid := &rnode{col: 1, row: 1, w: 4, h: 3, buf: fullBuf(1, 12)}
+						mid.kids = []*rnode{big, {col: 3, row: 0, z: 1, w: 1, h: 1, buf: fullBuf(2, 1)}}
+						root.kids = []*rnode{mid}
+					} else {
+						root.kids = []*rnode{big}
+					}
+					if err := emitRender(r, sw, sh, root); err != nil {
+						return err
+					}
+					r.Count("render:big-surface")
+					if ro >= first {
+						r.Count("render:big-surface,visible-row-past-65535")
+					}
+				}
+			}
+		}
+	}
+
 	n := 6000
 	if r.Thorough {
 		n = 60000
@@ -1094,6 +1162,14 @@ func parseBuf(s string) ([]vaxis.Cell, bool) {
 	}
 	var out []vaxis.Cell
 	for _, c := range strings.Split(s, ",") {
+		reps := 1
+		if k := strings.IndexByte(c, '*'); k >= 0 {
+			n, ok := atoi(c[k+1:])
+			if !ok || n < 0 {
+				return nil, false
+			}
+			reps, c = n, c[:k]
+		}
 		p := strings.Split(c, ".")
 		if len(p) != 3 {
 			return nil, false
@@ -1108,7 +1184,9 @@ func parseBuf(s string) ([]vaxis.Cell, bool) {
 		if !ok {
 			return nil, false
 		}
-		out = append(out, vaxis.Cell{Character: vaxis.Character{Grapheme: gs, Width: w}, Style: tagStyle(st)})
+		for k := 0; k < reps; k++ {
+			out = append(out, vaxis.Cell{Character: vaxis.Character{Grapheme: gs, Width: w}, Style: tagStyle(st)})
+		}
 	}
 	return out, true
 }
